@@ -44,6 +44,11 @@ pub open spec fn rsem(c: Cx, r: Residual) -> R
 pub open spec fn v_any_err(c: Cx, es: Arc<Vec<Residual>>) -> bool decreases es { exists|i: int| 0 <= i < es@.len() && rsem(c, #[trigger] es@[i]) is E }
 pub open spec fn v_all_val(c: Cx, es: Arc<Vec<Residual>>) -> bool decreases es { forall|i: int| 0 <= i < es@.len() ==> rsem(c, #[trigger] es@[i]) is V }
 pub open spec fn v_vals(c: Cx, es: Arc<Vec<Residual>>) -> Seq<ValueKind> decreases es { Seq::new(es@.len(), |i: int| if 0 <= i < es@.len() { rsem(c, es@[i])->V_0 } else { arbitrary() }) }
+pub open spec fn m_any_err(c: Cx, m: Arc<BTreeMap<SmolStr, Residual>>) -> bool decreases m { exists|k: SmolStr| m@.contains_key(k) && rsem(c, #[trigger] m@[k]) is E }
+pub open spec fn m_all_val(c: Cx, m: Arc<BTreeMap<SmolStr, Residual>>) -> bool decreases m { forall|k: SmolStr| m@.contains_key(k) ==> rsem(c, #[trigger] m@[k]) is V }
+pub open spec fn m_vals(c: Cx, m: Arc<BTreeMap<SmolStr, Residual>>) -> Seq<(SmolStr, ValueKind)> decreases m {
+    Seq::new(m.key_order().len(), |i: int| if 0 <= i < m.key_order().len() && m@.contains_key(m.key_order()[i]) { (m.key_order()[i], rsem(c, m@[m.key_order()[i]])->V_0) } else { arbitrary() })
+}
 pub open spec fn bsem(c: Cx, op: BinaryOp, k1: ValueKind, k2: ValueKind) -> R {
     match op {
         BinaryOp::Eq | BinaryOp::Less | BinaryOp::LessEq => opt_r(evaluator::sp_relation(op, k1, k2)),
@@ -124,10 +129,10 @@ pub open spec fn ksem(c: Cx, k: ResidualKind) -> R
             x => x,
         },
         // every argument / element is evaluated: an error in any of them is an error of the whole.  The result of an extension
-        // call itself, and record literals, are not pinned down here
+        // call itself, and is not pinned down here
         ResidualKind::ExtensionFunctionApp { args, .. } => if v_any_err(c, args) { R::E } else { R::U },
         ResidualKind::Set(es) => if v_any_err(c, es) { R::E } else if v_all_val(c, es) { R::V(mk_set(v_vals(c, es))) } else { R::U },
-        ResidualKind::Record(_) => R::U,
+        ResidualKind::Record(m) => if m_any_err(c, m) { R::E } else if m_all_val(c, m) { R::V(mk_record(m_vals(c, m))) } else { R::U },
     }
 }
 /// the simplified residual answers what the original answers (an unspecified side allows anything)
@@ -172,7 +177,7 @@ pub open spec fn tk(c: Cx, k: ResidualKind) -> bool
         ResidualKind::HasAttr { expr, .. } => types_ok(c, *expr) && val_ok(rsem(c, *expr), |k: ValueKind| k is Record || is_uid_k(k)),
         ResidualKind::ExtensionFunctionApp { args, .. } => forall|i: int| 0 <= i < args@.len() ==> types_ok(c, #[trigger] args@[i]),
         ResidualKind::Set(es) => forall|i: int| 0 <= i < es@.len() ==> types_ok(c, #[trigger] es@[i]),
-        ResidualKind::Record(_) => true,
+        ResidualKind::Record(m) => forall|k: SmolStr| m@.contains_key(k) ==> types_ok(c, #[trigger] m@[k]),
     }
 }
 /// SOUNDNESS of a simplification step, for every completion consistent with the partial inputs under which the input has no type error:
@@ -274,3 +279,96 @@ pub proof fn lemma_tk_list(k: ResidualKind)
     }
 }
 pub open spec fn list_of(k: ResidualKind) -> Seq<Residual> { match k { ResidualKind::Set(es) => es@, ResidualKind::ExtensionFunctionApp { args, .. } => args@, _ => Seq::empty() } }
+
+// ---- record literals ----
+pub open spec fn mp_any_err(c: Cx, m: Map<SmolStr, Residual>) -> bool { exists|k: SmolStr| m.contains_key(k) && rsem(c, #[trigger] m[k]) is E }
+pub open spec fn mp_all_val(c: Cx, m: Map<SmolStr, Residual>) -> bool { forall|k: SmolStr| m.contains_key(k) ==> rsem(c, #[trigger] m[k]) is V }
+pub open spec fn mp_can_err(m: Map<SmolStr, Residual>) -> bool { exists|k: SmolStr| m.contains_key(k) && can_err(#[trigger] m[k]) }
+pub proof fn lemma_can_err_record(m: Arc<BTreeMap<SmolStr, Residual>>)
+    ensures can_err_kind(ResidualKind::Record(m)) <==> mp_can_err(m@)
+{
+    reveal_with_fuel(can_err_kind, 2);
+    let kd = ResidualKind::Record(m);
+    assert(kd->Record_0 == m);
+    if mp_can_err(m@) {
+        let k = choose|k: SmolStr| m@.contains_key(k) && can_err(#[trigger] m@[k]);
+        assert(kd->Record_0@.contains_key(k) && can_err(kd->Record_0@[k]));
+    }
+    if can_err_kind(kd) {
+        let k = choose|k: SmolStr| m@.contains_key(k) && can_err(#[trigger] m@[k]);
+        assert(m@.contains_key(k) && can_err(m@[k]));
+    }
+}
+pub proof fn lemma_map_sound(ev: &Evaluator<'_>, mi: Map<SmolStr, Residual>, mo: Map<SmolStr, Residual>)
+    requires mi.dom() =~= mo.dom(), forall|k: SmolStr| mi.contains_key(k) ==> sound(ev, #[trigger] mi[k], mo[k])
+    ensures forall|c: Cx| #![trigger mp_any_err(c, mi)] #![trigger mp_all_val(c, mi)] cons(ev, c) && (forall|k: SmolStr| mi.contains_key(k) ==> types_ok(c, #[trigger] mi[k])) ==> {
+        &&& (mp_any_err(c, mi) ==> mp_can_err(mo) && (mp_any_err(c, mo) || !mp_all_val(c, mo)))
+        &&& (mp_any_err(c, mo) ==> mp_any_err(c, mi) || !mp_all_val(c, mi))
+        &&& (mp_all_val(c, mi) && mp_all_val(c, mo) ==> forall|k: SmolStr| mi.contains_key(k) ==> rsem(c, #[trigger] mo[k]) == rsem(c, mi[k]))
+        &&& (mp_all_val(c, mi) ==> !mp_any_err(c, mo))
+    }
+{
+    assert forall|c: Cx| #![trigger mp_any_err(c, mi)] #![trigger mp_all_val(c, mi)] cons(ev, c) && (forall|k: SmolStr| mi.contains_key(k) ==> types_ok(c, #[trigger] mi[k])) implies ({
+        &&& (mp_any_err(c, mi) ==> mp_can_err(mo) && (mp_any_err(c, mo) || !mp_all_val(c, mo)))
+        &&& (mp_any_err(c, mo) ==> mp_any_err(c, mi) || !mp_all_val(c, mi))
+        &&& (mp_all_val(c, mi) && mp_all_val(c, mo) ==> forall|k: SmolStr| mi.contains_key(k) ==> rsem(c, #[trigger] mo[k]) == rsem(c, mi[k]))
+        &&& (mp_all_val(c, mi) ==> !mp_any_err(c, mo))
+    }) by {
+        assert forall|k: SmolStr| mi.contains_key(k) implies agree(rsem(c, #[trigger] mo[k]), rsem(c, mi[k])) && (rsem(c, mi[k]) is E ==> can_err(mo[k])) by {
+            assert(sound(ev, mi[k], mo[k])); assert(types_ok(c, mi[k]));
+        }
+        if mp_any_err(c, mi) {
+            let k = choose|k: SmolStr| mi.contains_key(k) && rsem(c, #[trigger] mi[k]) is E;
+            assert(mo.contains_key(k)); assert(can_err(mo[k])); assert(rsem(c, mo[k]) is E || rsem(c, mo[k]) is U);
+        }
+        if mp_any_err(c, mo) {
+            let k = choose|k: SmolStr| mo.contains_key(k) && rsem(c, #[trigger] mo[k]) is E;
+            assert(mi.contains_key(k)); assert(agree(rsem(c, mo[k]), rsem(c, mi[k]))); assert(rsem(c, mi[k]) is E || rsem(c, mi[k]) is U);
+        }
+        if mp_all_val(c, mi) && mp_all_val(c, mo) {
+            assert forall|k: SmolStr| mi.contains_key(k) implies rsem(c, #[trigger] mo[k]) == rsem(c, mi[k]) by {
+                assert(mo.contains_key(k)); assert(agree(rsem(c, mo[k]), rsem(c, mi[k]))); assert(rsem(c, mi[k]) is V); assert(rsem(c, mo[k]) is V);
+            }
+        }
+        if mp_all_val(c, mi) && mp_any_err(c, mo) {
+            let k = choose|k: SmolStr| mo.contains_key(k) && rsem(c, #[trigger] mo[k]) is E;
+            assert(mi.contains_key(k)); assert(agree(rsem(c, mo[k]), rsem(c, mi[k]))); assert(rsem(c, mi[k]) is V);
+        }
+    }
+}
+/// the meaning of a record literal in terms of the map predicates
+pub proof fn lemma_ksem_record(m: Arc<BTreeMap<SmolStr, Residual>>)
+    ensures forall|c: Cx| #[trigger] ksem(c, ResidualKind::Record(m)) == (if mp_any_err(c, m@) { R::E } else if mp_all_val(c, m@) { R::V(mk_record(m_vals(c, m))) } else { R::U }),
+        forall|c: Cx| #[trigger] tk(c, ResidualKind::Record(m)) ==> (forall|k: SmolStr| m@.contains_key(k) ==> types_ok(c, #[trigger] m@[k])),
+{
+    assert forall|c: Cx| #[trigger] ksem(c, ResidualKind::Record(m)) == (if mp_any_err(c, m@) { R::E } else if mp_all_val(c, m@) { R::V(mk_record(m_vals(c, m))) } else { R::U }) by {
+        let mm = m@;
+        if mp_any_err(c, mm) { let k = choose|k: SmolStr| mm.contains_key(k) && rsem(c, #[trigger] mm[k]) is E; assert(rsem(c, m@[k]) is E); }
+        if m_any_err(c, m) { let k = choose|k: SmolStr| m@.contains_key(k) && rsem(c, #[trigger] m@[k]) is E; assert(rsem(c, mm[k]) is E); }
+        if mp_all_val(c, mm) { assert forall|k: SmolStr| m@.contains_key(k) implies rsem(c, #[trigger] m@[k]) is V by { assert(rsem(c, mm[k]) is V); } }
+        if m_all_val(c, m) { assert forall|k: SmolStr| mm.contains_key(k) implies rsem(c, #[trigger] mm[k]) is V by { assert(rsem(c, m@[k]) is V); } }
+        assert(ksem(c, ResidualKind::Record(m)) == (if m_any_err(c, m) { R::E } else if m_all_val(c, m) { R::V(mk_record(m_vals(c, m))) } else { R::U }));
+    }
+    assert forall|c: Cx| #[trigger] tk(c, ResidualKind::Record(m)) implies (forall|k: SmolStr| m@.contains_key(k) ==> types_ok(c, #[trigger] m@[k])) by {}
+}
+/// interpreting every field of a record literal gives a map over the same field names whose values are sound field by field
+pub proof fn lemma_record_collect(ev: &Evaluator<'_>, m: Arc<BTreeMap<SmolStr, Residual>>, items: Seq<(SmolStr, Residual)>, rec: BTreeMap<SmolStr, Residual>)
+    requires m.order_ok(), items.len() == m.key_order().len(),
+        forall|i: int| 0 <= i < items.len() ==> (#[trigger] items[i]).0 == m.key_order()[i] && sound(ev, m@[m.key_order()[i]], items[i].1),
+        rec@ == vx_map_of(items),
+    ensures rec@.dom() =~= m@.dom(), forall|k: SmolStr| m@.contains_key(k) ==> sound(ev, #[trigger] m@[k], rec@[k]), rec.key_order() == m.key_order(),
+{
+    let ko = m.key_order();
+    lemma_vx_map_of_dom(items);
+    assert forall|a: int, b: int| 0 <= a < b < items.len() implies (#[trigger] items[a]).0 != (#[trigger] items[b]).0 by { assert(ko[a] != ko[b]); }
+    assert forall|k: SmolStr| rec@.contains_key(k) <==> m@.contains_key(k) by {
+        if rec@.contains_key(k) { let i = choose|i: int| 0 <= i < items.len() && (#[trigger] items[i]).0 == k; assert(ko[i] == k); }
+        if m@.contains_key(k) { assert(ko.contains(k)); let i = choose|i: int| 0 <= i < ko.len() && ko[i] == k; assert(items[i].0 == k); }
+    }
+    assert forall|k: SmolStr| m@.contains_key(k) implies sound(ev, #[trigger] m@[k], rec@[k]) by {
+        assert(ko.contains(k)); let i = choose|i: int| 0 <= i < ko.len() && ko[i] == k;
+        lemma_vx_map_of_val(items, i);
+        assert(items[i].0 == k);
+    }
+    axiom_btreemap_key_order_dom(&rec, &*m);
+}
